@@ -18,7 +18,7 @@ T = {
          "End-to-end claim is exploration only."),
  "C03": ("other", "Theorems: totality of Area64, minkowski, checkPrecision (panics exactly outside −8…8) on the generated / hand models; the only fault site of the polygon RectClip state machine is characterised (Props C06 executePoly_fault_iff). Every exported entry point is explored on malformed inputs, touching (glued) polygons and magnitudes up to 2^61 in child processes with watchdog and memory limit. Known finding: int64 product overflow from 2^30.",
          "Totality of the whole API is exploration (fault enumeration over a malformed-input stream), not a theorem."),
- "C04": ("other", "Theorems (7): IsHole alternates with the level (generated code); about Model.Tree (buildTree / recursiveCheckOwners / checkSplitOwner): a record is only ever attached below a placed record with points that contains it, and every record with points is placed exactly once, for every record table and every strict containment order; about Model.PIPOp: pointInOpPolygon is exact within the coordinate domain. NOT true and not proved: that the accepted container is the innermost one — five known findings (two-level misplacements around horizontal touching), three of them pinned to the generated inputs of the registered runs. End-to-end nesting explored with the Lean oracle.",
+ "C04": ("other", "Theorems (7): IsHole alternates with the level (generated code); about Model.Tree (buildTree / recursiveCheckOwners / checkSplitOwner): a record is only ever attached below a placed record with points that contains it, and every record with points is placed exactly once, for every record table and every strict containment order; about Model.PIPOp: pointInOpPolygon is exact within the coordinate domain; about Model.Contain (path1InsidePath2, the exported Path2ContainsPath1, getCleanPath): for rings that do not cross, two strictly inside vertices and none strictly outside give true, the mirror image false, all vertices on the boundary let the bounds' mid-point decide; getCleanPath only drops vertices. NOT true and not proved: that the accepted container is the innermost one — five known findings (two-level misplacements around horizontal touching), three of them pinned to the generated inputs of the registered runs. End-to-end nesting explored with the Lean oracle.",
          "Innermost-parent clause is violated by the code (known findings); end-to-end claim is exploration."),
  "C05": ("other", "Theorems (12): StripDuplicates properties; GetLowestPathInfo picks the path holding the lowest-then-leftmost point among non-zero-area paths and reports its orientation; the decisions of InflatePaths64 (Model.offsetPlan): pass-through below 0.5, polygon groups offset by ±delta according to that orientation with the matching final fill rule. The offset geometry (joins, arcs) is float code and only explored: exact-rational sample points judged by the Lean oracle.",
          "Distance claims are exploration only."),
